@@ -14,7 +14,7 @@
 //
 // Obs    : ((res r…) (emits e…) (alive 0|1|-))
 //
-//	r := ok | none | dead | loopexit | notask | norpc | nonhook | (r STATE err) | (h err) | (crash where) | hang
+//	r := ok | none | dead | ignored | loopexit | notask | norpc | nonhook | (r STATE err) | (h err) | (crash where) | hang
 //	e := (S RUNNING|FINISHED|FAILED|KILLED) | (E final voluntary exitcode)
 //
 // Each case runs in its own re-executed vh process (runner.go), so a panic or a
@@ -138,7 +138,7 @@ loop:
 	emits := sx.L(sx.A("emits"))
 	alive := "-"
 	sigs := sx.L(sx.A("sigs"))
-	done, hang := false, -1
+	done, hang, notimer := false, -1, false
 	var emitAt []int // number of emits when op i began
 	for _, l := range all {
 		f := strings.SplitN(l, " ", 3)
@@ -160,6 +160,8 @@ loop:
 		case "HANG":
 			hang, _ = strconv.Atoi(f[1])
 			res.Add(sx.A("hang"))
+		case "NOTIMER":
+			notimer = true
 		case "INCONCLUSIVE":
 			return caseOut{inconclusive: l}, nil
 		case "ALIVE":
@@ -189,7 +191,7 @@ loop:
 		sigs = sx.L(sx.A("sigs"))
 	}
 	obs := sx.L(res, emits, sx.L(sx.A("alive"), sx.A(alive)), sigs).String()
-	return caseOut{obs: obs, hang: hang >= 0}, nil
+	return caseOut{obs: obs, hang: hang >= 0 || notimer}, nil
 }
 
 func lastLines(s string, n int) string {
@@ -306,17 +308,20 @@ func randomOps(r *rng.R, kind string, n int) []string {
 
 func generate(tier string, r *rng.R) []fw.Case {
 	var cs []fw.Case
-	exLen, nRandom, nCtl, maxLen, slowBudget := 2, 150, 50, 7, 10
+	exLen, nRandom, nCtl, maxLen, slowBudget := 2, 150, 50, 7, 6
 	if tier == "thorough" {
 		exLen, nRandom, nCtl, maxLen, slowBudget = 3, 3000, 600, 9, 80
 	}
 	slow := 0
+	var slowCs []fw.Case // started first, so that their timers overlap with everything else
 	add := func(kind, beh string, ops []string) {
 		if expensive(kind, beh, ops) {
 			if slow >= slowBudget {
 				return
 			}
 			slow++
+			slowCs = append(slowCs, mkCase(kind, beh, ops))
+			return
 		}
 		cs = append(cs, mkCase(kind, beh, ops))
 	}
@@ -344,7 +349,7 @@ func generate(tier string, r *rng.R) []fw.Case {
 		q := r.Fork()
 		add("ctl", rng.Pick(q, ctlBehs), randomOps(q, "ctl", q.Range(2, maxLen-2)))
 	}
-	return cs
+	return append(slowCs, cs...)
 }
 
 func nontrivial(input, obs string) bool {
@@ -401,6 +406,8 @@ func init() {
 			"(thorough 9) steps; observed: results of every step, UPDATE/MESSAGE calls in order, panic site, reproduced hang, survivors in the " +
 			"process groups, signals received by the device. non-trivial = >=2 steps, a child was spawned and a stop/kill/await follows; distinct by input text",
 		Shrink:  shrinkCands,
+		// wider search after a break: the quick stream under another seed (every case costs a process and >= 0.2 s)
+		Search:  func(r *rng.R) []fw.Case { return generate("quick", r) },
 		Workers: 8,
 		Setup: func(work string) error {
 			workDir = work
